@@ -131,6 +131,9 @@ impl<'ast> syn::visit::Visit<'ast> for NeedsDo {
     }
     fn visit_expr_method_call(&mut self, m: &'ast ExprMethodCall) {
         let n = m.method.to_string();
+        if n == "parse_next" && m.args.iter().any(|a| matches!(a, Expr::Reference(r) if r.mutability.is_some())) {
+            self.0 = true;
+        }
         if n == "push" || n == "append" || n == "hash" || n == "next" || n == "pop" || n == "insert" || n == "clear" || n == "sort" || n == "extend" {
             self.0 = true;
         }
@@ -220,6 +223,17 @@ impl<'a> Fx<'a> {
         let mut binders = vec![];
         let mut pre_lets: Vec<String> = vec![];
         let mut is_display = false;
+        // `S: AsRef<str>`: a string
+        let mut str_params: Vec<String> = vec![];
+        for g in &f.sig.generics.params {
+            if let GenericParam::Type(tp) = g {
+                if tp.bounds.to_token_stream().to_string().replace(' ', "") == "AsRef<str>" {
+                    str_params.push(tp.ident.to_string());
+                } else {
+                    return Err(format!("generic parameter `{}` is not modelled", tp.to_token_stream()));
+                }
+            }
+        }
         for (i, a) in f.sig.inputs.iter().enumerate() {
             match a {
                 FnArg::Receiver(_) => {
@@ -237,7 +251,7 @@ impl<'a> Fx<'a> {
                             continue;
                         }
                     }
-                    let lt = self.ty(&pt.ty)?;
+                    let lt = if str_params.contains(&pt.ty.to_token_stream().to_string()) { "(List Char)".to_string() } else { self.ty(&pt.ty)? };
                     let alts = self.pat_alts(&pt.pat)?;
                     if alts.len() != 1 {
                         return Err("or-pattern in a parameter".into());
@@ -266,6 +280,12 @@ impl<'a> Fx<'a> {
             }
         };
         let head = format!("def {} {} : {} :=", lname, binders.join(" "), ret);
+        if ret.starts_with("(Except ") {
+            self.mode = Mode::Result;
+            let mut lines: Vec<Line> = pre_lets.iter().map(|p| Line { ind: 1, text: p.clone() }).collect();
+            lines.extend(self.stmts(&f.block, 1, T::Ret)?);
+            return Ok(format!("{}{} do\n{}", doc, head, render(&lines)));
+        }
         let body = self.body(&f.block, is_display, &pre_lets)?;
         Ok(format!("{}{}{}", doc, head, body))
     }
@@ -582,6 +602,7 @@ impl<'a> Fx<'a> {
 
     // -------------------------------------------------------------------------------- statements
     fn stmts(&mut self, b: &Block, ind: usize, tail: T) -> R<Vec<Line>> {
+        check_block_attrs(b)?;
         let mut out = vec![];
         let n = b.stmts.len();
         for (i, s) in b.stmts.iter().enumerate() {
@@ -676,6 +697,29 @@ impl<'a> Fx<'a> {
                         pre.push(Line { ind, text: format!("let {} := Rust.next {}", t, x) });
                         pre.push(Line { ind, text: format!("{} := {}.2", x, t) });
                         return Ok(format!("{}.1", t));
+                    }
+                }
+            }
+        }
+        if let Expr::MethodCall(m) = e {
+            // `p.parse_next(&mut x)` on a local string: the result, and `x` advanced
+            if m.method == "parse_next" && m.args.len() == 1 {
+                if let Expr::Reference(r) = &m.args[0] {
+                    if r.mutability.is_some() {
+                        if let Expr::Path(p) = &*r.expr {
+                            if let Some(id) = p.path.get_ident() {
+                                let x = ident_name(&id.to_string());
+                                let saved = self.mode;
+                                self.mode = Mode::Parser;
+                                let pe = self.pexpr_atom(&m.receiver);
+                                self.mode = saved;
+                                let pe = pe?;
+                                let t = self.fresh("run");
+                                pre.push(Line { ind, text: format!("let {} := Winnow.run {} {}", t, pe, x) });
+                                pre.push(Line { ind, text: format!("{} := {}.2", x, t) });
+                                return Ok(format!("{}.1", t));
+                            }
+                        }
                     }
                 }
             }
@@ -1130,6 +1174,7 @@ impl<'a> Fx<'a> {
     }
 
     fn block_term(&mut self, b: &Block, root: bool) -> R<String> {
+        check_block_attrs(b)?;
         let mut lets = vec![];
         let n = b.stmts.len();
         for (i, s) in b.stmts.iter().enumerate() {
@@ -1367,7 +1412,11 @@ impl<'a> Fx<'a> {
                         Member::Named(n) => n.to_string(),
                         _ => return Err("tuple field in a struct literal".into()),
                     };
-                    fs.push(format!("{} := {}", struct_field(&name, &fname), self.expr(&f.expr)?));
+                    if let Some((mf, conv)) = struct_field_conv(&name, &fname) {
+                        fs.push(format!("{} := ({} {})", mf, conv, self.expr_atom(&f.expr)?));
+                    } else {
+                        fs.push(format!("{} := {}", struct_field(&name, &fname), self.expr(&f.expr)?));
+                    }
                 }
                 match &s.rest {
                     Some(r) => Ok(format!("({{ {} with {} }} : {})", self.expr(r)?, fs.join(", "), lean_ty)),
@@ -1419,6 +1468,14 @@ impl<'a> Fx<'a> {
 
     fn binary(&mut self, b: &ExprBinary) -> R<String> {
         use BinOp::*;
+        if let Sub(_) = b.op {
+            // `a.as_ptr() as usize - b.as_ptr() as usize`: the byte offset of the slice `a` inside the string `b`
+            if let (Some(x), Some(y)) = (as_ptr_operand(&b.left), as_ptr_operand(&b.right)) {
+                let xs = self.expr_atom(x)?;
+                let ys = self.expr_atom(y)?;
+                return Ok(format!("(Rust.ptr_diff {} {})", xs, ys));
+            }
+        }
         let l = self.expr_atom(&b.left)?;
         let r = self.expr_atom(&b.right)?;
         let s = match b.op {
@@ -1437,6 +1494,12 @@ impl<'a> Fx<'a> {
             Mul(_) => {
                 self.site("arith", b.span(), short(&Expr::Binary(b.clone())));
                 format!("({} * {})", l, r)
+            }
+            Sub(_) => {
+                // on `usize`/`u64`: a panic site when it underflows (builds with overflow checks), wraps otherwise; the
+                // translation truncates at 0 and lists the site
+                self.site("arith", b.span(), short(&Expr::Binary(b.clone())));
+                format!("({} - {})", l, r)
             }
             _ => return Err(format!("operator `{}` is not modelled", b.op.to_token_stream())),
         };
@@ -1518,7 +1581,12 @@ impl<'a> Fx<'a> {
         if matches!(name.as_str(), "iter" | "into_iter" | "clone" | "as_ref" | "to_string" | "to_owned" | "as_str" | "cloned" | "copied") && args.is_empty() {
             return Ok(recv);
         }
-        // trait methods resolved by Lean's instance search
+        // trait methods resolved by Lean's instance search; an inherent method of the same name would win in Rust
+        if matches!(name.as_str(), "cmp" | "eq" | "ne" | "into" | "partial_cmp" | "max" | "min" | "clone" | "hash" | "fmt" | "to_string")
+            && !self.krate.method_owners(&name).is_empty()
+        {
+            return Err(format!("an inherent method `{}` shadows the trait method the translation assumes", name));
+        }
         match (name.as_str(), args.len()) {
             ("cmp", 1) => return Ok(format!("(Rust.ROrd.cmp {} {})", recv, a)),
             ("eq", 1) => return Ok(format!("(Rust.REq.eq {} {})", recv, a)),
@@ -1581,6 +1649,9 @@ impl<'a> Fx<'a> {
             ("min", 1) => format!("(Rust.min {} {})", recv, a),
             ("enumerate", 0) => format!("(Rust.enumerate {})", recv),
             ("try_fold", 2) => format!("(Rust.try_fold_option {} {})", recv, a),
+            ("char_indices", 0) => format!("(Rust.char_indices {})", recv),
+            ("next_back", 0) => format!("(Rust.next_back {})", recv),
+            ("map_or", 2) => format!("(Rust.map_or {} {})", recv, a),
             ("is_ascii_alphanumeric", 0) => format!("(Rust.is_ascii_alphanumeric {})", recv),
             ("is_ascii_digit", 0) => format!("(Rust.is_ascii_digit {})", recv),
             ("map_err", 1) => format!("(Rust.map_err {} {})", recv, a),
@@ -1609,6 +1680,59 @@ impl<'a> Fx<'a> {
             _ => Err(format!("unsupported macro `{}!` in an expression", n)),
         }
     }
+}
+
+/// attributes other than doc comments and lints can switch code on and off (`#[cfg(..)]`): refused
+fn check_attrs(attrs: &[Attribute]) -> R<()> {
+    for a in attrs {
+        let p = a.path();
+        if p.is_ident("doc") || p.is_ident("allow") || p.is_ident("warn") || p.is_ident("inline") {
+            continue;
+        }
+        return Err(format!("attribute `{}` inside a function body", a.to_token_stream()));
+    }
+    Ok(())
+}
+
+fn check_block_attrs(b: &Block) -> R<()> {
+    struct V(Option<String>);
+    impl<'ast> syn::visit::Visit<'ast> for V {
+        fn visit_attribute(&mut self, a: &'ast Attribute) {
+            if let Err(e) = check_attrs(std::slice::from_ref(a)) {
+                if self.0.is_none() {
+                    self.0 = Some(e);
+                }
+            }
+        }
+        fn visit_expr_unsafe(&mut self, _: &'ast ExprUnsafe) {
+            if self.0.is_none() {
+                self.0 = Some("unsafe block".into());
+            }
+        }
+    }
+    let mut v = V(None);
+    syn::visit::Visit::visit_block(&mut v, b);
+    match v.0 {
+        Some(e) => Err(e),
+        None => Ok(()),
+    }
+}
+
+fn as_ptr_operand(e: &Expr) -> Option<&Expr> {
+    let e = match e {
+        Expr::Paren(p) => &*p.expr,
+        e => e,
+    };
+    if let Expr::Cast(c) = e {
+        if type_head(&c.ty).as_deref() == Some("usize") {
+            if let Expr::MethodCall(m) = &*c.expr {
+                if m.method == "as_ptr" && m.args.is_empty() {
+                    return Some(&*m.receiver);
+                }
+            }
+        }
+    }
+    None
 }
 
 fn is_input(e: &Expr) -> bool {
